@@ -11,6 +11,7 @@ ap = argparse.ArgumentParser()
 ap.add_argument('-j', type=int, default=4)
 ap.add_argument('-o', default=V + '/build/matrix_par.txt')
 ap.add_argument('--tier', default='quick')
+ap.add_argument('--prefix', default='mw', help='name prefix of the scratch worktrees under /tmp (two matrices can run side by side)')
 ap.add_argument('pats', nargs='+')
 a = ap.parse_args()
 
@@ -30,6 +31,9 @@ for pat in a.pats:
             p = os.path.join(path, 'patch_rebased.diff')
             if not os.path.exists(p):
                 p = os.path.join(path, 'patch.diff')
+            mp = os.path.join(path, 'meta.json')
+            if os.path.exists(mp) and json.load(open(mp)).get('superseded'):
+                continue          # neutralised by a later fix: commit (see its meta.json)
             checks = [sid.split('-')[0]]
             if os.path.exists(os.path.join(path, 'also.txt')):
                 checks += open(os.path.join(path, 'also.txt')).read().split()
@@ -47,7 +51,7 @@ def sh(*cmd, **kw):
 
 
 def worker(k):
-    wt, bd = '/tmp/mw-%d' % k, '/tmp/mwb-%d' % k
+    wt, bd = '/tmp/%s-%d' % (a.prefix, k), '/tmp/%sb-%d' % (a.prefix, k)
     sh('git', '-C', '/repo', 'worktree', 'remove', '--force', wt)
     shutil.rmtree(wt, ignore_errors=True)
     r = sh('git', '-C', '/repo', 'worktree', 'add', '--detach', wt, 'HEAD')
